@@ -236,7 +236,7 @@ _SAFE_METHODS = {
     dict: {'keys', 'values', 'items', 'get', 'pop', 'update', 'setdefault', 'copy'},
     str: {'lower', 'upper', 'find', 'index', 'count', 'startswith', 'endswith', 'join', 'split',
           'strip', 'rstrip', 'lstrip', 'format', 'encode', 'isdigit', 'rfind', 'replace'},
-    bytes: {'find', 'index', 'count', 'lower', 'upper', 'startswith', 'endswith', 'decode', 'isdigit'},
+    bytes: {'find', 'index', 'count', 'lower', 'upper', 'startswith', 'endswith', 'decode', 'isdigit', 'join', 'split', 'strip', 'hex', 'replace', 'rfind'},
     bytearray: {'find', 'index', 'count', 'extend', 'append', 'pop'},
     tuple: {'index', 'count'},
     __import__('decimal').Decimal: {'quantize', 'normalize', 'to_integral_value', 'is_finite', 'as_tuple'},
@@ -264,7 +264,7 @@ class _Chain:
 _STDLIB_PURE = {   # side-effect-free stdlib helpers the repository imports by name
     ('itertools', 'product'): lambda *a, **k: list(_it.product(*a, **k)),
     ('itertools', 'chain'): _Chain(),
-    ('itertools', 'repeat'): lambda x, n: [x] * n,
+    ('itertools', 'repeat'): lambda x, n=None: ([x] * n if n is not None else _it.repeat(x)),
     ('itertools', 'islice'): lambda it, *a: list(_it.islice(it, *a)),
     ('itertools', 'zip_longest'): lambda *a, **k: list(_it.zip_longest(*a, **k)),
     ('functools', 'reduce'): _ft.reduce, ('functools', 'partial'): _ft.partial,
